@@ -324,7 +324,7 @@ def run(chk):
                         ok="%d" % (ps["l"] * ps["Bgbit"]), bad="%d" % (ps["l"] * ps["Bgbit"]), variant=vn)
             chk.require(ps["ks_t"] * ps["ks_basebit"] <= 31, "R3", "%s: ks_t*ks_basebit <= 31" % name, where=f.where,
                         ok="%d" % (ps["ks_t"] * ps["ks_basebit"]), bad="%d" % (ps["ks_t"] * ps["ks_basebit"]), variant=vn)
-            procs = [s for s in v.statics.values() if s.get("tls") and s.get("definition")]
+            procs = [s for s in v.statics.values() if s.get("tls") and s.get("definition") and re.search(r"FFT_Processor", s.get("t", ""))]
             chk.set_count("R3.thread_local_processors", len(procs))
             for s in procs:
                 init = s.get("init") or {}
